@@ -27,4 +27,11 @@ PROPS = {
         bounded=["bounded.c15_packets", "bounded.struct_selftest"],
         trusted=["T4 pyvc.struct_model (struct.pack/unpack of x B H I ... in '<' and '!' order), cross-checked against CPython's struct on every run by bounded.struct_selftest"],
     ),
+    "C13": dict(
+        level="proof",
+        specs=["specs.c13_memio"],
+        bounded=["bounded.c13_views"],
+        trusted=["assumed contract of the parent allocation as seen from a view: _perform_read returns mem[a:a+n], _perform_write stores exactly data at a (the parent's own methods are verified to issue exactly that one controller read/write); MachineController.read/write/sdram_free are external (C07)",
+                 "a view and its parent are modelled as separate records (no aliasing): a MemoryIO used as its own view is covered by the bounded layer on real objects"],
+    ),
 }
